@@ -146,7 +146,9 @@ type pagedStore struct {
 	first bool
 }
 
-func (s *pagedStore) Append(ctx context.Context, e *eb.Event) (eb.Offset, error) { return s.p.Append(ctx, e) }
+func (s *pagedStore) Append(ctx context.Context, e *eb.Event) (eb.Offset, error) {
+	return s.p.Append(ctx, e)
+}
 func (s *pagedStore) SaveOffset(ctx context.Context, id string, off eb.Offset) error {
 	return s.p.SaveOffset(ctx, id, off)
 }
